@@ -310,6 +310,20 @@ func slice(x, lo, hi, max value) value {
 }
 
 // lookup returns x[idx] where x is a map.
+func (fr *frame) lookupOp(instr *ssa.Lookup, x, idx value) value {
+	if m, ok := x.(map[value]value); ok {
+		v, ok := fr.mapLookup(m, idx)
+		if !ok {
+			v = zero(instr.X.Type().Underlying().(*types.Map).Elem())
+		}
+		if instr.CommaOk {
+			return tuple{v, ok}
+		}
+		return v
+	}
+	return lookup(instr, x, idx)
+}
+
 func lookup(instr *ssa.Lookup, x, idx value) value {
 	switch x := x.(type) { // map or string
 	case map[value]value, *hashmap:
@@ -961,6 +975,10 @@ var CapturedOutput *bytes.Buffer
 // returning its result.
 func callBuiltin(caller *frame, callpos token.Pos, fn *ssa.Builtin, args []value) value {
 	switch fn.Name() {
+	case "append", "copy", "len", "min", "max", "print", "println":
+		forceAll(args)
+	}
+	switch fn.Name() {
 	case "append":
 		if len(args) == 1 {
 			return args[0]
@@ -994,7 +1012,7 @@ func callBuiltin(caller *frame, callpos token.Pos, fn *ssa.Builtin, args []value
 	case "delete": // delete(map[K]value, K)
 		switch m := args[0].(type) {
 		case map[value]value:
-			delete(m, mapKey(args[1]))
+			caller.mapDelete(m, args[1])
 		case *hashmap:
 			m.delete(args[1].(hashable))
 		default:
@@ -1030,7 +1048,7 @@ func callBuiltin(caller *frame, callpos token.Pos, fn *ssa.Builtin, args []value
 		case []value:
 			return len(x)
 		case map[value]value:
-			return len(x)
+			return caller.mapLen(x)
 		case *hashmap:
 			return x.len()
 		case chan value:
